@@ -25,9 +25,10 @@ TNoMod == [id |-> 256, scope |-> <<>>, fields |-> <<F(8, 4), F(9999, 4)>>]
 TVar65 == [id |-> 256, scope |-> <<>>, fields |-> <<F(8, 65535)>>]
 TZOpt  == [id |-> 256, scope |-> <<F(1, 0)>>, fields |-> <<F(4, 0), F(82, 0)>>]          \* options template, every field of length 0
 T257   == [id |-> 257, scope |-> <<>>, fields |-> <<F(12, 4)>>]
+TPad   == [id |-> 256, scope |-> <<>>, fields |-> <<F(210, 4), F(210, 2)>>]            \* nothing but padding octets
 SetupTpl(n) == CASE n = "norm" -> TNorm [] n = "var" -> TVar [] n = "zlen" -> TZLen [] n = "zero" -> TZero
                  [] n = "opt" -> TOpt [] n = "big" -> TBig [] n = "nomod" -> TNoMod [] n = "var65" -> TVar65
-                 [] n = "t257" -> T257 [] n = "zopt" -> TZOpt
+                 [] n = "t257" -> T257 [] n = "zopt" -> TZOpt [] n = "pad" -> TPad
 SetupMsg(n) == EncMsg(H, <<EncTplSet(SetupTpl(n), 0)>>)
 
 (* skeletons of the decisive datagram *)
